@@ -7,7 +7,7 @@ from sa.astx import NotConst, body_walk, call_attr, call_name, const_eval, dotte
 from sa.selftest import Mutant, Silent
 from sa.source import methods
 from sa.props._lib_j import (asserted_eq, asserted_is, bind_args, catching_handler, edge_asserts, funcs_in_class, is_self_attr,
-                             local_defs, no_exc, node_calls, body_always_entered, run_sections, normal_exits, params, resolve, rsrc)
+                             local_defs, no_exc, node_calls, body_always_entered, leaf_values, normalise, run_sections, normal_exits, params, resolve, rsrc)
 
 PROPERTY = "C49"
 TEAM = "_threads/_team.py"
@@ -34,6 +34,8 @@ EXPLANATION = (
     "Every anchor function is also checked to be entered on every call (no memoising/wrapping decorator, duplicate definition or rebinding). "
 )
 ASSUMPTIONS = [
+    "the rules read a normalised view of the anchored modules (sa/props/_lib_j.Normaliser): private helpers expanded at their call sites, module constants and single-assignment pure temporaries substituted, loops over constant tuples unrolled; evaluation order inside one statement is not modelled",
+   
     "the coordinator's do() runs its argument in mutual exclusion (IExclusiveWorker contract; LockWorker checked separately)",
     "private Team methods are not called from outside _team.py (checked for _pool.py and threadpool.py)",
     "_logException / onResult / log.err do not raise",
@@ -187,7 +189,9 @@ def _s_dispatch(ctx, S):
     ctx.check(wit is None, "dispatch/task-dispatched-or-parked", q,
               "a task can leave _coordinateThisTask neither handed to a worker nor parked in _pending (it never runs)", witness=g.describe(wit))
     for nid in park:
-        ok = any(a is not None and a[2] and src(a[1]) == "None" and any(src(a[0]) == src(d[1]) for d in disp)
+        # "no worker": the value tested against None is the dispatch receiver (or what it is an alias of)
+        aliases = {src(d[1]) for d in disp} | {rsrc(d[1], f) for d in disp}
+        ok = any(a is not None and a[2] and src(a[1]) == "None" and ({src(a[0]), rsrc(a[0], f)} & aliases)
                  for a in (asserted_is(t, lab) for t, lab in edge_asserts(g, nid)))
         ctx.check(ok, "dispatch/park-only-without-worker", ctx.construct(q, g.node(nid).ast),
                   "the task is parked in _pending although a worker is available")
@@ -197,14 +201,21 @@ def _s_dispatch(ctx, S):
               "after parking the task (no worker) the function goes on to count / dispatch it: _busyCount is incremented for a task nobody runs "
               "(or the task runs twice)", witness=g.describe(w))
     for nid, recv, target in disp:
-        rr = resolve(recv, f)
-        parts = [rr.body, rr.orelse] if isinstance(rr, ast.IfExp) else [rr]
-        ok = all(src(p_) in ("self._idle.pop()", "self._createWorker()") for p_ in parts)
+        leaves = leaf_values(f, recv)
+        ok = all(src(v) in ("self._idle.pop()", "self._createWorker()") for v, _, _ in leaves)
         ctx.check(ok, "dispatch/worker-from-idle-or-new", ctx.construct(q, "<worker>.do(doWork)"),
-                  f"the task is dispatched to {src(rr)}, which is not a worker just removed from _idle or just created: a busy worker may be "
-                  f"handed a second task")
-        if isinstance(rr, ast.IfExp):
-            ctx.check(src(rr.test) == "self._idle" and src(rr.body) == "self._idle.pop()", "dispatch/idle-first", ctx.construct(q, "worker selection"),
+                  f"the task is dispatched to {sorted({src(v) for v, _, _ in leaves})}, which is not (only) a worker just removed from _idle or just created: a busy "
+                  f"worker may be handed a second task")
+        # idle-first: the pop happens only under a non-empty _idle, the creation only under an empty one (conditional expression or if/else)
+        for v, conds, chain in leaves:
+            want = {"self._idle.pop()": True, "self._createWorker()": False}.get(src(v))
+            if want is None:
+                continue
+            have = [arm for t, arm in conds if src(t) == "self._idle"] + [not arm for t, arm in conds if src(t) == "not self._idle"]
+            for st_ in chain:
+                for cn_ in [x.id for x in g.nodes if x.ast is st_ and g.reachable(x.id)]:
+                    have += [lab == "T" for t, lab in edge_asserts(g, cn_) if src(t) == "self._idle"]
+            ctx.check(have == [want] or (have and all(h == want for h in have)), "dispatch/idle-first", ctx.construct(q, f"worker selection: {src(v)}"),
                       "a new worker is created although an idle one exists (or pop from an empty idle set)")
         w = g.must_precede(incs, [nid], exc=False)
         ctx.check(bool(incs) and w is None, "busy-count/incremented-on-dispatch", ctx.construct(q, "<worker>.do(doWork)"),
@@ -287,7 +298,7 @@ def _s_recycle(ctx, S):
     ctx.check(bool(retry), "recycle/pending-retried", q, "_recycleWorker never retries a pending task: parked tasks never run")
     for r in retry:
         call = next(c for nid, c in node_calls(g, lambda c: call_name(c) == "self._coordinateThisTask") if nid == r)
-        a0 = call.args[0] if call.args else None
+        a0 = resolve(call.args[0], local_defs(f, track_mutation=False)) if call.args else None
         end = _pop_end(a0) if isinstance(a0, ast.Call) and dotted(a0.func.value if isinstance(a0.func, ast.Attribute) else a0.func) == "self._pending" else None
         ctx.check(end == "first", "fifo/team-pending", ctx.construct(q, "retry of the pending task"),
                   "the retried task is not taken from the front of _pending (tasks run out of submission order / starvation of the oldest)")
@@ -355,9 +366,12 @@ def _s_quit_idlers(ctx, S):
         st = g.node(s).ast
         ctx.check(isinstance(st.op, ast.Add) and src(st.value) == "1" and g.guarded(s, lambda e: src(e) == "self._idle", False),
                   "shrink/deferred-for-busy", ctx.construct(q, st), "_toShrink is not incremented exactly when no idle worker is left")
-    dflt = [n for n in walk_local(f) if isinstance(n, ast.Assign) and len(n.targets) == 1 and src(n.targets[0]) == params(f)[1]]
-    ok = any(lincmp(ast.Compare(left=d.value, ops=[ast.GtE()], comparators=[ast.Constant(0)])) ==
-             (frozenset({("len(self._idle)", 1), ("self._busyCount", 1)}), 0) for d in dflt)
+    # the number of workers to stop defaults (n is None) to idle + busy: looked up through whatever feeds the loop's range()
+    total = (frozenset({("len(self._idle)", 1), ("self._busyCount", 1)}), 0)
+    cands = [n.value for n in walk_local(f) if isinstance(n, ast.Assign) and len(n.targets) == 1 and src(n.targets[0]) == params(f)[1]]
+    for lp_ in [n for n in walk_local(f) if isinstance(n, ast.For) and isinstance(n.iter, ast.Call) and call_name(n.iter) == "range" and n.iter.args]:
+        cands += [v for v, _, _ in leaf_values(f, lp_.iter.args[-1])]
+    ok = any(lincmp(ast.Compare(left=d, ops=[ast.GtE()], comparators=[ast.Constant(0)])) == total for d in cands)
     ctx.check(ok, "quit/all-workers-by-default", q, "shrink(None) / quit does not cover idle + busy workers")
 
 
@@ -475,14 +489,35 @@ def _s_workers(ctx, S):
                            "ThreadWorker.quit enqueues the stop sentinel before rejecting new work: a task can be queued behind the sentinel and never run")
     sentinel_put = [src(c.args[0]) for c in ast.walk(f) if isinstance(c, ast.Call) and call_name(c) == "self._q.put" and c.args]
     fi = ctx.func(TW, "ThreadWorker.__init__")
-    loops = [n for n in ast.walk(fi) if isinstance(n, ast.For) and isinstance(n.iter, ast.Call) and len(n.iter.args) == 2 and "get" in src(n.iter.args[0])]
-    ctx.need(loops, "for task in iter(queue.get, sentinel) in ThreadWorker.__init__.work")
-    lp = loops[0]
-    ctx.check(sentinel_put == [src(lp.iter.args[1])], "worker/sentinel-agreement", "twisted._threads._threadworker.ThreadWorker | stop sentinel",
-              f"quit() enqueues {sentinel_put} but the thread loop stops on {src(lp.iter.args[1])}: the thread never ends (stop() hangs)")
-    calls = [c for s in lp.body for c in ast.walk(s) if isinstance(c, ast.Call) and isinstance(c.func, ast.Name) and c.func.id == src(lp.target)]
-    ctx.check(len(calls) == 1, "task/called-once", "twisted._threads._threadworker.ThreadWorker.__init__.work", "each dequeued task is not called exactly once")
-    ctx.check(src(lp.iter.args[0]).split(".")[0] == params(fi)[2] or "_q" in src(lp.iter.args[0]), "worker/same-queue",
+    # the thread's loop, read by role: (queue read expression, stop sentinel, number of call sites of the dequeued task per iteration)
+    #   for task in iter(q.get, SENTINEL): task()          |   while True: task = q.get(); if task == SENTINEL: break; task()
+    shape = None
+    for n in ast.walk(fi):
+        if isinstance(n, ast.For) and isinstance(n.iter, ast.Call) and len(n.iter.args) == 2 and call_attr(n.iter.args[0]) is None and src(n.iter.args[0]).endswith(".get"):
+            tv = src(n.target)
+            calls = [c for s_ in n.body for c in ast.walk(s_) if isinstance(c, ast.Call) and isinstance(c.func, ast.Name) and c.func.id == tv]
+            shape = (src(n.iter.args[0])[:-len(".get")], src(n.iter.args[1]), len(calls), True)
+        elif isinstance(n, ast.While) and shape is None:
+            gets = [a for a in ast.walk(n) if isinstance(a, ast.Assign) and len(a.targets) == 1 and isinstance(a.targets[0], ast.Name) and isinstance(a.value, ast.Call)
+                    and call_attr(a.value) == "get" and not a.value.args]
+            if len(gets) != 1:
+                continue
+            tv = gets[0].targets[0].id
+            stops = [(i_, c_) for i_ in ast.walk(n) if isinstance(i_, ast.If) for c_ in [i_.test] if isinstance(c_, ast.Compare) and len(c_.ops) == 1 and
+                     isinstance(c_.ops[0], (ast.Eq, ast.Is)) and src(c_.left) == tv and any(isinstance(b, (ast.Break, ast.Return)) for b in i_.body)]
+            if len(stops) != 1:
+                continue
+            stop_if, cmp_ = stops[0]
+            calls = [c for c in ast.walk(n) if isinstance(c, ast.Call) and isinstance(c.func, ast.Name) and c.func.id == tv and not any(c is x for b in stop_if.body for x in ast.walk(b))]
+            forever = src(n.test) in ("True", "1")
+            shape = (src(gets[0].value.func.value), src(cmp_.comparators[0]), len(calls), forever)
+    ctx.need(shape, "the thread loop of ThreadWorker.__init__.work (iter(queue.get, sentinel) or while/get/compare/break)")
+    qexpr, sentinel, ncalls, forever = shape
+    ctx.check(sentinel_put == [sentinel], "worker/sentinel-agreement", "twisted._threads._threadworker.ThreadWorker | stop sentinel",
+              f"quit() enqueues {sentinel_put} but the thread loop stops on {sentinel}: the thread never ends (stop() hangs)")
+    ctx.check(ncalls == 1 and forever, "task/called-once", "twisted._threads._threadworker.ThreadWorker.__init__.work", "each dequeued task is not called exactly once "
+              "(or the loop can end before the sentinel arrives)")
+    ctx.check(qexpr.split(".")[0] == params(fi)[2] or qexpr.endswith("._q"), "worker/same-queue",
               "twisted._threads._threadworker.ThreadWorker.__init__.work", "the thread reads another queue than do() fills")
     started = [c for c in walk_local(fi) if isinstance(c, ast.Call) and call_name(c) == params(fi)[1]]
     ctx.check(len(started) == 1, "worker/one-thread", "twisted._threads._threadworker.ThreadWorker.__init__",
@@ -493,22 +528,28 @@ def _s_workers(ctx, S):
                     "MemoryWorker.quit appends NoMoreWork before rejecting new work")
     fp = ctx.func(MEM, "createMemoryWorker.perform")
     ends = [_pop_end(c) for c in ast.walk(fp) if isinstance(c, ast.Call) and call_attr(c) in ("pop", "popleft")]
-    peeks = [src(s.slice) for s in ast.walk(fp) if isinstance(s, ast.Subscript) and "_pending" in src(s.value)]
+    peeks = [src(s.slice) for s in ast.walk(fp) if isinstance(s, ast.Subscript) and "_pending" in rsrc(s.value, fp)]
     ctx.check(ends == ["first"] and peeks in (["0"], []), "fifo/memory-worker", "twisted._threads._memory.createMemoryWorker.perform",
               "MemoryWorker performs work from the wrong end of its queue (or peeks at another element than it pops)")
 
 
 def _s_lockworker(ctx, S):
     # ---------------- (e) LockWorker.do -----------------------------------------------------------------------------
+    # Roles, not names: LOCK = self._lock or a local alias; LOCAL = self._local or alias; R = the re-entrant queue (what getattr(LOCAL, "working")
+    # yields); F = the fresh queue published as LOCAL.working before the lock is taken (R and F may be one variable or two).
     f = ctx.func(TW, "LockWorker.do")
     g = ctx.cfg(f)
     q = "twisted._threads._threadworker.LockWorker.do"
-    defs = local_defs(f)
-    lockn = next((k for k, v in defs.items() if len(v) == 1 and v[0] is not None and src(v[0]) == "self._lock"), "self._lock")
-    localn = next((k for k, v in defs.items() if len(v) == 1 and v[0] is not None and src(v[0]) == "self._local"), "self._local")
-    acq = [nid for nid, c in node_calls(g, lambda c: call_name(c) == lockn + ".acquire")]
-    rel_ = [nid for nid, c in node_calls(g, lambda c: call_name(c) == lockn + ".release")]
-    clr = g.ids(lambda n: n.kind == "stmt" and isinstance(n.ast, ast.Assign) and any(src(t) == localn + ".working" for t in n.ast.targets) and src(n.ast.value) == "None")
+    defs = local_defs(f, track_mutation=False)
+    work_p = params(f)[1]
+
+    def aliases_of(attr):
+        return {attr} | {k for k, v in defs.items() if v and all(x is not None and src(x) == attr for x in v)}
+    LOCK, LOCAL = aliases_of("self._lock"), aliases_of("self._local")
+    marker = {a + ".working" for a in LOCAL}
+    acq = [nid for nid, c in node_calls(g, lambda c: call_attr(c) == "acquire" and dotted(c.func.value) in LOCK)]
+    rel_ = [nid for nid, c in node_calls(g, lambda c: call_attr(c) == "release" and dotted(c.func.value) in LOCK)]
+    clr = g.ids(lambda n: n.kind == "stmt" and isinstance(n.ast, ast.Assign) and any(src(t) in marker for t in n.ast.targets) and src(n.ast.value) == "None")
     if not acq:
         ctx.violation("lockworker/acquires-lock", q, "LockWorker.do never acquires its lock: coordinator work runs without mutual exclusion (two threads update the "
                       "team's counters at once)")
@@ -526,30 +567,51 @@ def _s_lockworker(ctx, S):
     chk = [nid for nid, c in node_calls(g, lambda c: call_name(c) == "self._quit.check")]
     w = g.must_precede(chk, acq, exc=False)
     ctx.check(bool(chk) and w is None, "quit/refused-after-quit", q, "LockWorker.do does not check the quit flag before working")
-    # the work list: appended on both branches, consumed from the front, drained completely
-    wname = None
-    for k, v in defs.items():
-        if any(x is not None and isinstance(x, ast.Call) and call_name(x) == "getattr" and len(x.args) >= 2 and src(x.args[0]) == localn and src(x.args[1]) == "'working'" for x in v):
-            wname = k
-    ctx.need(wname, "working = getattr(local, 'working', None) in LockWorker.do")
-    apps = [nid for nid, c in node_calls(g, lambda c: call_name(c) == wname + ".append" and c.args and src(c.args[0]) == params(f)[1])]
+    # the queues
+    R = {k for k, v in defs.items() if any(x is not None and isinstance(x, ast.Call) and call_name(x) == "getattr" and len(x.args) >= 2 and src(x.args[0]) in LOCAL
+                                           and src(x.args[1]) == "'working'" for x in v)}
+    ctx.need(R, "<queue> = getattr(local, 'working', None) in LockWorker.do")
+    shared = g.ids(lambda n: n.kind == "stmt" and isinstance(n.ast, (ast.Assign, ast.AnnAssign)) and src(getattr(n.ast, "value", None)) != "None" and
+                   any(src(t) in marker for t in (n.ast.targets if isinstance(n.ast, ast.Assign) else [n.ast.target])))
+    F = set()
+    for s_ in shared:
+        st = g.node(s_).ast
+        F |= {t.id for t in (st.targets if isinstance(st, ast.Assign) else [st.target]) if isinstance(t, ast.Name)}
+        if isinstance(st.value, ast.Name):
+            F.add(st.value.id)
+    Q_ = R | F
+    apps = [nid for nid, c in node_calls(g, lambda c: call_attr(c) == "append" and dotted(c.func.value) in Q_ and c.args and src(c.args[0]) == work_p)]
     w = g.must_pass([g.entry], apps, exc=False)
     ctx.check(bool(apps) and w is None, "lockworker/work-always-queued", q, "do() can return without queueing (or running) the work", witness=g.describe(w))
-    ends = [(_pop_end(c), c) for c in walk_local(f) if isinstance(c, ast.Call) and call_attr(c) in ("pop", "popleft") and dotted(c.func.value) == wname]
+    ends = [(_pop_end(c), c) for c in walk_local(f) if isinstance(c, ast.Call) and call_attr(c) in ("pop", "popleft") and dotted(c.func.value) in Q_]
     ctx.check(bool(ends) and all(e == "first" for e, _ in ends), "fifo/lock-worker", q,
               "LockWorker runs re-entrantly queued work from the wrong end: coordinator operations are reordered")
     for e, c in ends:
         p = getattr(c, "_parent", None)
-        ctx.check(isinstance(p, ast.Call) and p.func is c and not p.args, "lockworker/work-called", ctx.construct(q, c), "dequeued work is not called")
+        called = isinstance(p, ast.Call) and p.func is c and not p.args
+        if not called and isinstance(p, ast.Assign) and len(p.targets) == 1 and isinstance(p.targets[0], ast.Name):
+            nm = p.targets[0].id
+            loop_ = next((x for x in _parents_until(c, f) if isinstance(x, ast.While)), f)
+            called = sum(1 for x in walk_local(loop_) if isinstance(x, ast.Call) and isinstance(x.func, ast.Name) and x.func.id == nm and not x.args) == 1
+        ctx.check(called, "lockworker/work-called", ctx.construct(q, c), "dequeued work is not called (exactly once)")
         loop = next((x for x in _parents_until(c, f) if isinstance(x, ast.While)), None)
-        ctx.check(loop is not None and src(loop.test) == wname, "lockworker/drained", ctx.construct(q, "while working"),
+        qn = dotted(c.func.value)
+        nonempty = False
+        if loop is not None:
+            lc = lincmp(loop.test)
+            nonempty = src(loop.test) == qn or (lc is not None and dict(lc[0]) == {f"len({qn})": 1} and lc[1] == 1) or src(loop.test) == f"len({qn}) != 0"
+        ctx.check(nonempty, "lockworker/drained", ctx.construct(q, "while <queue not empty>"),
                   "the work list is not drained completely before the lock is released (re-entrantly queued work is lost)")
         for cn in g.ids_of(c):
             ctx.check(any(g.dominates(a, cn) for a in acq), "lockworker/work-under-lock", ctx.construct(q, c), "work runs without the lock held")
-    shared = g.ids(lambda n: n.kind == "stmt" and isinstance(n.ast, ast.Assign) and any(src(t) == localn + ".working" for t in n.ast.targets) and src(n.ast.value) != "None")
     ctx.check(bool(shared) and g.must_precede(shared, acq, exc=False) is None and
-              all(g.guarded(s, lambda e: True, None) and any((a := asserted_is(t, lab)) is not None and a[2] and src(a[0]) == wname for t, lab in edge_asserts(g, s)) for s in shared),
-              "lockworker/reentrancy-marker", q, "local.working is not published (under `working is None`) before the lock is taken: re-entrant do() would dead-lock")
+              all(any((a := asserted_is(t, lab)) is not None and a[2] and src(a[0]) in R and src(a[1]) == "None" for t, lab in edge_asserts(g, s)) for s in shared),
+              "lockworker/reentrancy-marker", q, "local.working is not published (under `<re-entrant queue> is None`) before the lock is taken: re-entrant do() would dead-lock")
+    # the re-entrant branch only queues: it never touches the lock
+    for nid in [n for n, c in node_calls(g, lambda c: call_attr(c) == "append" and dotted(c.func.value) in R and c.args and src(c.args[0]) == work_p)]:
+        if any((a := asserted_is(t, lab)) is not None and not a[2] and src(a[0]) in R for t, lab in edge_asserts(g, nid)):
+            ctx.check(g.path([nid], acq, edge_ok=no_exc) is None, "lockworker/reentrant-call-only-queues", ctx.construct(q, "re-entrant append"),
+                      "a re-entrant do() goes on to acquire the (non re-entrant) lock: dead-lock")
 
 
 def _s_threadpool(ctx, S):
@@ -653,11 +715,18 @@ def _s_threadpool_init(ctx, S):
         return
     gl = ctx.cfg(lim[0])
     okl = True
+    seen_vals = set()
     for r in normal_exits(gl):
         st = gl.node(r).ast
-        v = src(st.value) if isinstance(st, ast.Return) else None
-        started = [lab for t, lab in edge_asserts(gl, r) if src(t) == "self.started"]
-        okl = okl and ((v == "0" and started == ["F"]) or (v == "self.max" and started == ["T"]))
+        if not (isinstance(st, ast.Return) and st.value is not None):
+            okl = False
+            continue
+        cfg_started = [lab == "T" for t, lab in edge_asserts(gl, r) if src(t) == "self.started"]
+        for v, conds, _ in leaf_values(lim[0], st.value):
+            started = cfg_started + [arm for t, arm in conds if src(t) == "self.started"] + [not arm for t, arm in conds if src(t) == "not self.started"]
+            seen_vals.add(src(v))
+            okl = okl and len(set(started)) == 1 and ((src(v) == "0" and started[0] is False) or (src(v) == "self.max" and started[0] is True))
+    okl = okl and seen_vals == {"0", "self.max"}
     ctx.check(okl, "limit/current-limit", "twisted.python.threadpool.ThreadPool.__init__.currentLimit", "the limit is not (0 when not started, else self.max)")
 
 
@@ -693,12 +762,14 @@ def _s_limit(ctx, S):
     ctx.check(imp == ["Queue"], "fifo/thread-worker-queue", "twisted._threads._pool | from queue import Queue", f"Queue is bound to queue.{imp}")
     tc = [c for c in ast.walk(ctx.func(POOL, "pool")) if isinstance(c, ast.Call) and call_name(c) == "Team"]
     ctx.need(tc, "Team(...) in pool()")
-    kw = {k.arg: src(k.value) for k in tc[0].keywords}
+    fpool = ctx.func(POOL, "pool")
+    kw = {k.arg: rsrc(k.value, local_defs(fpool, track_mutation=False)) for k in tc[0].keywords}
     ctx.check(kw.get("coordinator", "").startswith("LockWorker(Lock()") and kw.get("createWorker") == "limitedWorkerCreator", "limit/team-wiring", "twisted._threads._pool.pool | Team(...)",
               "the team is not built with a fresh LockWorker coordinator and the limited worker creator")
 
 
 def check(ctx):
+    normalise(ctx, {TEAM: ["_quitIdlers", "_coordinateThisTask", "_recycleWorker"], TW: [], MEM: [], POOL: [], TP: ["_generateName"], CONV: []})
     run_sections(ctx, [("confinement", _s_confinement), ("dispatch", _s_dispatch), ("recycle", _s_recycle), ("quitIdlers", _s_quit_idlers),
                        ("entry-points", _s_entry_points), ("Team.quit", _s_team_quit), ("statistics", _s_statistics), ("quit-flag", _s_quit_flag),
                        ("workers", _s_workers), ("LockWorker", _s_lockworker), ("ThreadPool.call", _s_threadpool), ("ThreadPool.stop", _s_threadpool_stop),
@@ -767,4 +838,17 @@ SILENT = [
     Silent("busy-test-rewritten", TEAM, "        if self._shouldQuitCoordinator and self._busyCount == 0:", "        if not self._busyCount and self._shouldQuitCoordinator:"),
     Silent("limit-rewritten", POOL, "        if stats.busyWorkerCount + stats.idleWorkerCount >= currentLimit():", "        if not (stats.idleWorkerCount + stats.busyWorkerCount < currentLimit()):"),
     Silent("stop-flags-reordered", TP, "        self.joined = True\n        self.started = False\n        self._team.quit()", "        self.started = False\n        self.joined = True\n        self._team.quit()"),
+    Silent("worker-closures-as-private-methods", TEAM,
+           "        @worker.do\n        def doWork() -> None:\n            try:\n                task()\n            except BaseException:\n                self._logException()\n\n            @self._coordinator.do\n            def idleAndPending() -> None:\n                self._busyCount -= 1\n                self._recycleWorker(not_none_worker)\n",
+           "        worker.do(lambda: self._runOn(not_none_worker, task))\n\n    def _runOn(self, w: IWorker, job: Callable[..., object]) -> None:\n        try:\n            job()\n        except BaseException:\n            self._logException()\n        self._coordinator.do(lambda: self._giveBack(w))\n\n"
+           "    def _giveBack(self, w: IWorker) -> None:\n        self._busyCount -= 1\n        self._recycleWorker(w)\n"),
+    Silent("worker-chosen-by-if-else", TEAM, "        worker = self._idle.pop() if self._idle else self._createWorker()\n        if worker is None:\n            # The createWorker method may return None if we're out of resources\n            # to create workers.\n            self._pending.append(task)\n            return\n        not_none_worker = worker\n",
+           "        if not self._idle:\n            picked = self._createWorker()\n        else:\n            picked = self._idle.pop()\n        if picked is None:\n            self._pending.append(task)\n            return\n        worker = picked\n        not_none_worker = worker\n"),
+    Silent("lockworker-early-return-and-static-drain", TW,
+           "        working = getattr(local, \"working\", None)\n        if working is None:\n            assert lock is not None, \"LockWorker used after quit()\"\n            working = local.working = []\n            working.append(work)\n            lock.acquire()\n            try:\n                while working:\n                    working.pop(0)()\n            finally:\n                lock.release()\n                local.working = None\n        else:\n            working.append(work)\n",
+           "        outer = getattr(local, \"working\", None)\n        if outer is not None:\n            outer.append(work)\n            return\n        assert lock is not None, \"LockWorker used after quit()\"\n        mine: list = []\n        local.working = mine\n        mine.append(work)\n        self._drain(lock, local, mine)\n\n"
+           "    @staticmethod\n    def _drain(lock, local, items):\n        lock.acquire()\n        try:\n            while len(items) > 0:\n                first = items.pop(0)\n                first()\n        finally:\n            lock.release()\n            local.working = None\n"),
+    Silent("thread-loop-as-while", TW, "            for task in smartiter(queue.get, StopThread):\n                task()\n", "            while True:\n                job = queue.get()\n                if job is StopThread:\n                    return\n                job()\n"),
+    Silent("current-limit-as-conditional-expression", TP, "            if not self.started:\n                return 0\n            return self.max\n", "            return self.max if self.started else 0\n"),
+    Silent("coordinator-in-a-temporary", POOL, "    team = Team(\n        coordinator=LockWorker(Lock(), LocalStorage()),\n", "    serialiser = LockWorker(Lock(), LocalStorage())\n    team = Team(\n        coordinator=serialiser,\n"),
 ]
